@@ -69,7 +69,7 @@ def run_fit(ctx, data, tag):
     def nu_for(delta):
         for (dl, nu_v, flag) in runs:
             same = z3.And(*[eq(p, q) for p, q in zip(dl, delta)])
-            if ctx._query(z3.Not(same))[0] == "unsat":
+            if ctx._query(z3.Not(same), timeout_ms=3000)[0] == "unsat":
                 return nu_v, flag
         k = len(runs)
         nu_z = ctx.register(f"nu_{k}", z3.Real(f"nu_{k}"))
@@ -142,8 +142,16 @@ def make_equivariance(n, d, kind):
             a = np.array([float(m.get(f"a{j}", 2.0)) for j in range(d)])
             a = np.where(np.abs(a) < 1e-3, 2.0, a)
             b = np.array([float(m.get(f"b{j}", 0.3)) for j in range(d)])
-            y = x * a + b
             perm = list(range(d))
+            # the property quantifies over scalings in [1e-6, 1e6]: also try the ends of that range
+            for sc in (1e-6, 1e-4, 1e4, 1e6):
+                aa = np.full(d, sc)
+                p1, q1, r1 = fit_mvstud(x)
+                p2, q2, r2 = fit_mvstud(x * aa)
+                if not (np.allclose(p2, aa * p1, rtol=1e-6, atol=0) and np.allclose(q2, np.outer(aa, aa) * q1, rtol=1e-6, atol=0)):
+                    return {"reproduced": True, "signature": f"fit_mvstud:not-equivariant:{kind}", "payload": {"scale": sc},
+                            "what": f"fit_mvstud of 200 points scaled by {sc}: scale matrix {q2.tolist()} is not {sc}^2 times the unscaled one {q1.tolist()}"}
+            y = x * a + b
         else:
             a, b, perm = np.ones(d), np.zeros(d), [1, 0]
             y = x[:, perm]
@@ -179,6 +187,35 @@ def make_equivariance(n, d, kind):
                              "np.cov -> unbiased covariance model", "np.linalg.solve -> closed form (d<=2)"],
                       theory="QF_NRA", timeout_ms=30000, max_paths=2000,
                       allow_domain="degenerate data (singular initial scale matrix) is outside the claim")
+
+
+def make_init_equivariance(n, d):
+    """initial location / scale matrix only (max_iter=0): the part every real fit returns when the nu update says inf."""
+
+    def init_fit(ctx, data):
+        proxy = NpProxy(overrides={"cov": cov_model})
+        with patched(student_mod, np=proxy):
+            return fit_mvstud(sarr(data), tolerance=1e-6, max_iter=0)
+
+    def harness(ctx: PathCtx):
+        x = [[real(ctx, f"x{i}_{j}") for j in range(d)] for i in range(n)]
+        a = [real(ctx, f"a{j}") for j in range(d)]
+        b = [real(ctx, f"b{j}") for j in range(d)]
+        for v in a:
+            ctx.assume(v.n != 0)
+        y = [[a[j] * x[i][j] + b[j] for j in range(d)] for i in range(n)]
+        m1, S1, _ = init_fit(ctx, x)
+        m2, S2, _ = init_fit(ctx, y)
+        ctx.check("location-equivariant", z3.And(*[eq(m2[j], a[j] * m1[j] + b[j]) for j in range(d)]))
+        ctx.check("initial-scale-matrix-equivariant", z3.And(*[eq(S2[j][k], a[j] * a[k] * S1[j][k]) for j in range(d) for k in range(d)]))
+        if d == 1:
+            ctx.check("scale-positive-semidefinite", le(0, S1[0][0]))
+        return None
+
+    ob = make_equivariance(n, d, "affine")
+    return Obligation(f"init-equivariance-n{n}-d{d}", harness, replay=ob.replay, encodes=[fit_mvstud],
+                      bounds=f"n={n} symbolic points, d={d}, initialisation only (max_iter=0), symbolic per-coordinate scale/shift",
+                      stubs=["np.cov -> unbiased covariance model"], theory="QF_NRA", timeout_ms=20000, max_paths=2000)
 
 
 def make_wellposed(n, d):
@@ -218,8 +255,59 @@ def make_wellposed(n, d):
                       allow_domain="degenerate data (singular initial scale matrix) is outside the claim")
 
 
+def make_fallback():
+    """ModeStatistics.from_particles / from_global: a non-finite dof from the fit is replaced by the *configured* fallback."""
+    import tempest.modes as modes_mod
+    from tempest.modes import ModeStatistics
+    from vf.props.c14 import FitDouble, choice_cover
+    from vf.engine.util import integer
+
+    def harness(ctx: PathCtx):
+        n = 4
+        u = (np.arange(1, n + 1, dtype=float) / (n + 1)).reshape(n, 1)
+        w = np.full(n, 1.0 / n)
+        fb = 123.0
+        K = integer(ctx, "K", lo=1, hi=2).resolve(1, 2)
+        labels = np.array([0, 0, 0, 0] if K == 1 else [0, 0, 1, 1])
+        fitd = FitDouble(ctx)
+        rnd = type("R", (), {"choice": staticmethod(choice_cover)})()
+        with patched(modes_mod, fit_mvstud=fitd, np=NpProxy(random=rnd)):
+            ms1 = ModeStatistics.from_particles(u, w, labels, dof_fallback=fb)
+        fitg = FitDouble(ctx)
+        with patched(modes_mod, fit_mvstud=fitg, np=NpProxy(random=rnd)):
+            ms2 = ModeStatistics.from_global(u, w, dof_fallback=fb)
+        ok1 = all(float(v) in (5.0, fb) for v in ms1.degrees_of_freedom)
+        ok2 = all(float(v) in (5.0, fb) for v in ms2.degrees_of_freedom)
+        ctx.check("non-finite-dof-replaced-by-the-configured-fallback(from_particles)", z3.BoolVal(bool(ok1)), detail=[float(v) for v in ms1.degrees_of_freedom])
+        ctx.check("non-finite-dof-replaced-by-the-configured-fallback(from_global)", z3.BoolVal(bool(ok2)), detail=[float(v) for v in ms2.degrees_of_freedom])
+        return None
+
+    def replay(m, label, v):
+        import tempest.modes as modes_mod
+        from tempest.modes import ModeStatistics
+        n = 8
+        u = (np.arange(1, n + 1, dtype=float) / (n + 1)).reshape(n, 1)
+        w = np.full(n, 1.0 / n)
+        bad = []
+        for K in (1, 2):
+            labels = np.zeros(n, dtype=int) if K == 1 else np.array([0] * 4 + [1] * 4)
+            with patched(modes_mod, fit_mvstud=lambda data, *a, **k: (np.mean(data, axis=0), np.eye(1) * 0.01, np.inf)):
+                saved = np.random.get_state()
+                np.random.seed(0)
+                ms = ModeStatistics.from_particles(u, w, labels, dof_fallback=2.5)
+                np.random.set_state(saved)
+            if not np.allclose(ms.degrees_of_freedom, 2.5):
+                bad.append((K, ms.degrees_of_freedom.tolist()))
+        return {"reproduced": bool(bad), "signature": "ModeStatistics:configured-dof-fallback-ignored", "payload": {"cases": bad},
+                "what": f"ModeStatistics.from_particles(dof_fallback=2.5) with a fit that returns nu=inf gives dof {bad}"}
+
+    return Obligation("dof-fallback", harness, replay=replay, encodes=[ModeStatistics.from_particles, ModeStatistics.from_global],
+                      bounds="4 points, K in {1,2} clusters, fit returns a symbolic finite-or-inf dof, configured fallback 123.0",
+                      stubs=["fit_mvstud -> contract double", "np.random.choice -> covering representative"], theory="QF_LIA")
+
+
 def obligations(tier):
-    obs = [make_equivariance(3, 1, "affine"), make_wellposed(3, 1), make_equivariance(2, 2, "permute"), make_equivariance(2, 2, "affine")]
+    obs = [make_fallback(), make_init_equivariance(3, 1), make_init_equivariance(2, 2), make_equivariance(3, 1, "affine"), make_wellposed(3, 1), make_equivariance(2, 2, "permute"), make_equivariance(2, 2, "affine")]
     if tier == "thorough":
         obs += [make_equivariance(4, 1, "affine"), make_equivariance(4, 2, "permute"), make_wellposed(4, 1), make_wellposed(2, 2)]
     return obs
